@@ -173,6 +173,20 @@ pub struct Flat {
     pub elem_span: Vec<(usize, usize)>,
     /// parent element index (u32::MAX for file level)
     pub elem_parent: Vec<u32>,
+    /// marker of each element (0 = none)
+    pub elem_marker: Vec<u32>,
+}
+
+impl Flat {
+    pub fn empty() -> Flat {
+        Flat {
+            toks: Vec::new(),
+            elem_tags: Vec::new(),
+            elem_span: Vec::new(),
+            elem_parent: Vec::new(),
+            elem_marker: Vec::new(),
+        }
+    }
 }
 
 impl Doc {
@@ -182,6 +196,7 @@ impl Doc {
             elem_tags: Vec::new(),
             elem_span: Vec::new(),
             elem_parent: Vec::new(),
+            elem_marker: Vec::new(),
         };
         for e in &self.top {
             flatten_elem(e, 0, u32::MAX, false, true, &mut f);
@@ -211,6 +226,7 @@ pub fn flatten_elem(
     f.elem_tags.push(e.tag.clone());
     f.elem_span.push((f.toks.len(), 0));
     f.elem_parent.push(parent);
+    f.elem_marker.push(e.marker);
     let in_ifdata = e.tag == "IF_DATA" || e.tag == "A2ML";
     let mut first = true;
     let mut push = |f: &mut Flat, tok: Tok, slot: bool, ifd: bool, pidx: i32| {
